@@ -458,6 +458,11 @@ func c19Scenario(c *Ctx, i int, r *Rng) {
 					if strings.Contains(arg, " ") && strings.ContainsAny(pr, "\t") {
 						sig = "D9a"
 					}
+					if family == "above-has-dir-pattern" && want[pr] == "lfs" && strings.HasPrefix(pr, sub+"/deep/") && strings.Contains(out1, "already supported") {
+						// the top-level line `sub/<pattern>` makes track answer "already supported" (upstream pins
+						// this reading in t/t-track.sh "track representation"); deeper directories stay outside
+						sig = "D58"
+					}
 					fail("after `git lfs track <pattern>` Git's attribute lookup differs from what the pattern denotes (Git's reading of the quoted pattern)", fmt.Sprintf("pattern=%q path=%q want lfs=%v got lfs=%v written=%q", arg, pr, want[pr] == "lfs", after[pr] == "lfs", string(attrs1)), sig)
 				}
 			}
